@@ -784,6 +784,8 @@ func run(rng *vh.Rng, o *vh.Out, full bool) map[string]any {
 			o.Emit("f32gt", "f32gt "+f32hex(fa)+" "+f32hex(fb), implF32gt(fa, fb), true)
 		}
 	}
+	// ---------------------------------------------------------------- the quantisers after their real Fit() (fit.go)
+	fitSection(rng, o, full)
 	// ---------------------------------------------------------------- encode + metrics on encodings, every length
 	if emitLines {
 		o.Emit("encode-unfitted", "encode - "+hexW32([]float32{1, 2, 3}), implEncode(nil, []float32{1, 2, 3}), false)
@@ -1242,6 +1244,30 @@ func replayLine(line string) (out string) {
 		return implPqp(ns, k, w32(3), cx, cy)
 	case f[0] == "bqw" && len(f) == 6:
 		return implBqw(f[1], w32(2), w32(3), w32(4))
+	case f[0] == "pqfit" && len(f) == 12:
+		return replayPqfit(f, w32)
+	case f[0] == "bqfit" && len(f) == 9:
+		return replayBqfit(f, w32)
+	case f[0] == "pqe" && len(f) == 7:
+		ns, _ := strconv.Atoi(f[2])
+		k, _ := strconv.Atoi(f[3])
+		l, _ := strconv.Atoi(f[4])
+		return implPqe(f[1], ns, k, l, w32(5), w32(6))
+	case f[0] == "pqt" && len(f) == 6:
+		return "n/a (the tables a real Fit() left behind; k-means is not replayable from them: replay the pqfit line of the same case)"
+	case f[0] == "pqg" && len(f) == 10:
+		ns, _ := strconv.Atoi(f[2])
+		k, _ := strconv.Atoi(f[3])
+		l, _ := strconv.Atoi(f[4])
+		cx, err := parseU8(f[8])
+		if err != nil {
+			panic(err)
+		}
+		cy, err := parseU8(f[9])
+		if err != nil {
+			panic(err)
+		}
+		return implPqg(f[1], ns, k, l, w32(5), w32(6), w32(7), cx, cy)
 	case f[0] == "fdot" && len(f) == 3:
 		x, y := w32(1), w32(2)
 		s64, sabs, s32 := refDot(x, y)
